@@ -123,10 +123,11 @@ type Scenario struct {
 	Prop   string
 	Weight int
 	// Every > 0: the scenario is not drawn at random but runs for every seed
-	// with seed % Every == 0 (a fixed share of the seeds: expensive
+	// with seed % Every == Offset (a fixed share of the seeds: expensive
 	// scenarios that must take part in every check, also in the quick tier)
-	Every int
-	Gen   func(r *Rng, tier string, seed uint64) interface{}
+	Every  int
+	Offset int // with Every: the residue (seed % Every == Offset)
+	Gen    func(r *Rng, tier string, seed uint64) interface{}
 	New    func() interface{}
 	Exec   func(w interface{}, x *Exec) *Outcome
 	Shrink func(w interface{}) []interface{}
@@ -436,7 +437,7 @@ func pickScenario(prop string, seed uint64) *Scenario {
 	tot := 0
 	for _, s := range ss {
 		if s.Every > 0 {
-			if seed%uint64(s.Every) == 0 {
+			if seed%uint64(s.Every) == uint64(s.Offset) {
 				return s
 			}
 			continue
